@@ -33,6 +33,9 @@ const typeProbeVarText = `query Q($n: String!, $d: Boolean) { __type(name: $n) {
 
 var introspectionQueryText = introspection.Query
 
+// dirTies: the driver knows directive definitions (it answered "ok" to (directives …)).
+var dirTies bool
+
 const schemaProbe = `{ __schema { queryType { name } mutationType { name } subscriptionType { name } types { name } } }`
 
 // navigation probes: reach types through other types' listings rather than by name
@@ -67,6 +70,7 @@ func introspectionProbes(orig *Spec) []query {
 		{Kind: "probe", Label: "full-introspection", Text: string(introspection.Query)},
 		{Kind: "probe", Label: "schema-types", Text: schemaProbe},
 		{Kind: "probe", Label: "types-nav", Text: listNavProbe},
+		{Kind: "probe", Label: "directives", Text: `{ __schema { directives { name locations args { name type { ...R } } } } } ` + typeRefFrag},
 	}
 	for _, n := range universe(orig) {
 		qs = append(qs, query{Kind: "probe", Label: "type:" + n, Text: typeProbe(n)})
@@ -311,6 +315,44 @@ func realView(b *built, w *world, features []string, orig *Spec) ([]string, erro
 			lines = append(lines, fmt.Sprintf("lk %s: composite", n))
 		}
 	}
+	// directives: the introspection listing, and the argument definitions the validator consults
+	// (observed through "undefined directive" / "undefined argument")
+	if dirTies {
+		d, raw, err := run(`{ __schema { directives { name args { name type { ...R } } } } } ` + typeRefFrag)
+		if err != nil || d == nil {
+			return nil, fmt.Errorf("directives probe failed: %v %s", err, raw)
+		}
+		sch, _ := d["__schema"].(map[string]interface{})
+		dl, _ := sch["directives"].([]interface{})
+		for _, e := range dl {
+			m, _ := e.(map[string]interface{})
+			name, _ := m["name"].(string)
+			lines = append(lines, fmt.Sprintf("dir @%s: %s", name, inputsOf(m["args"])))
+			argNames := []string{"nope"}
+			if al, ok := m["args"].([]interface{}); ok {
+				for _, a := range al {
+					if am, ok := a.(map[string]interface{}); ok {
+						an, _ := am["name"].(string)
+						argNames = append(argNames, an)
+					}
+				}
+			}
+			for _, an := range argNames {
+				o := runQuery(b, w, features, &query{Kind: "probe", Text: fmt.Sprintf("{ __typename @%s(%s: 1) }", name, an)})
+				verdict := "defined"
+				if hasError(o.Resp, "Validation error: undefined argument") {
+					verdict = "undefined"
+				}
+				lines = append(lines, fmt.Sprintf("da %s.%s: %s", name, an, verdict))
+			}
+		}
+		o := runQuery(b, w, features, &query{Kind: "probe", Text: "{ __typename @nope(x: 1) }"})
+		verdict := "?"
+		if hasError(o.Resp, "Validation error: undefined directive") {
+			verdict = "nodirective"
+		}
+		lines = append(lines, "da nope.x: "+verdict)
+	}
 	// GetField, called directly on the library's type objects (gated types included: the accessor
 	// itself does not test the type's own features)
 	for _, t := range orig.Types {
@@ -456,6 +498,10 @@ func modelViewLines(reply string) ([]string, error) {
 			lines = append(lines, fmt.Sprintf("sp %s %s: %s", a[1].Atom, a[2].Atom, a[3].Atom))
 		case "rc":
 			lines = append(lines, fmt.Sprintf("rc %s %s: %s", a[1].Atom, a[2].Atom, a[3].Atom))
+		case "dir":
+			lines = append(lines, fmt.Sprintf("dir @%s: %s", a[1].Atom, sexpInputs(a[2])))
+		case "da":
+			lines = append(lines, fmt.Sprintf("da %s.%s: %s", a[1].Atom, a[2].Atom, a[3].Atom))
 		default:
 			return nil, fmt.Errorf("unknown view entry %s", e.String())
 		}
